@@ -73,6 +73,28 @@ fn main() {
             };
             run_exec(c)
         },
+        Some("exec-twice") => {
+            // self-test: the same scenario twice in ONE process (state leaking between runs shows here)
+            let Some(c) = args.get(2).and_then(|id| find(id)) else {
+                std::process::exit(2);
+            };
+            install_panic_hook();
+            let mut s = String::new();
+            use std::io::Read;
+            std::io::stdin().read_to_string(&mut s).unwrap();
+            let sc: serde_json::Value = serde_json::from_str(&s).unwrap();
+            let n = args.get(3).and_then(|s| s.parse::<usize>().ok()).unwrap_or(2);
+            if let Ok(f) = std::env::var("DCSIM_TRACE") {
+                use tracing_subscriber::EnvFilter;
+                let _ = tracing_subscriber::fmt().with_env_filter(EnvFilter::new(f)).without_time().with_writer(std::io::stderr).try_init();
+            }
+            for i in 0..n {
+                eprintln!("=== RUN {i}");
+                let o = run_case(c, &sc);
+                println!("{:016x} {:016x} {} sim_ms={} fp={:016x} probes={:?} faults={:?}", o.trace_hash, o.signature, o.violations.len(), o.sim_ms, o.state_fp, o.probes, o.faults);
+            }
+            0
+        },
         Some("replay") => {
             let Some(p) = args.get(2) else {
                 std::process::exit(usage());
